@@ -167,6 +167,13 @@ Lemma pooled_close_differs :
   mrun true (new_body (mk_mem [] [] []) [1; 2; 3]) evs = [[1; 2; 3]; [9; 9; 3]].
 Proof. vm_compute. split; reflexivity. Qed.
 
+Lemma retry_body_bytes_witness :
+  mem_wf (mk_mem [] [] []) /\
+  let evs := [MAttempt; MGet 0; MWrite 0 [9; 9]; MPut 0; MAttempt] in
+  mrun false (new_body (mk_mem [] [] []) [1; 2; 3]) evs = [[1; 2; 3]; [1; 2; 3]] /\
+  mrun true (new_body (mk_mem [] [] []) [1; 2; 3]) evs = [[1; 2; 3]; [9; 9; 3]].
+Proof. split; [exact mem_wf_empty|exact pooled_close_differs]. Qed.
+
 (* the observation of a pattern body is recognised as the request's own bytes *)
 Lemma bytes_are_pat_range : forall n salt off, bytes_are (pat_range salt off n) salt off = true.
 Proof. induction n as [|n IH]; intros salt off; [reflexivity|]. cbn [pat_range bytes_are]. rewrite N.eqb_refl, IH. reflexivity. Qed.
